@@ -83,8 +83,11 @@ Record regentry := { re_gen : gen; re_defn : option fields }.   (* re_defn = Use
 Record inst := { i_tname : nat;                (* SexpHash.TypeName *)
                  i_fac : regentry;             (* SexpHash.GoStructFactory, captured by MakeHash *)
                  i_fields : list (key * value) }.
-Record state := { st_clock : nat; st_reg : list (nat * regentry); st_store : list (nat * inst) }.
-Definition init_state : state := {| st_clock := 0; st_reg := []; st_store := [] |}.
+(* st_ptrs: pointers kept in variables, p<pid> = (& v<id>): target, and the PointedToType captured when the
+   pointer was made = the registry entry (name, generation) the target's type name had THEN *)
+Record state := { st_clock : nat; st_reg : list (nat * regentry); st_store : list (nat * inst);
+                  st_ptrs : list (nat * (nat * (nat * gen))) }.
+Definition init_state : state := {| st_clock := 0; st_reg := []; st_store := []; st_ptrs := [] |}.
 
 Fixpoint alookup {A} (k : nat) (l : list (nat * A)) : option A :=
   match l with [] => None | (k', a) :: r => if Nat.eqb k k' then Some a else alookup k r end.
@@ -113,11 +116,13 @@ Fixpoint lookup_field (d : fields) (f : nat) : option ty :=
   end.
 
 Definition set_reg (st : state) (r : list (nat * regentry)) : state :=
-  {| st_clock := st_clock st; st_reg := r; st_store := st_store st |}.
+  {| st_clock := st_clock st; st_reg := r; st_store := st_store st; st_ptrs := st_ptrs st |}.
 Definition set_store (st : state) (s : list (nat * inst)) : state :=
-  {| st_clock := st_clock st; st_reg := st_reg st; st_store := s |}.
+  {| st_clock := st_clock st; st_reg := st_reg st; st_store := s; st_ptrs := st_ptrs st |}.
+Definition set_ptrs (st : state) (p : list (nat * (nat * (nat * gen)))) : state :=
+  {| st_clock := st_clock st; st_reg := st_reg st; st_store := st_store st; st_ptrs := p |}.
 Definition tick (st : state) : state :=
-  {| st_clock := S (st_clock st); st_reg := st_reg st; st_store := st_store st |}.
+  {| st_clock := S (st_clock st); st_reg := st_reg st; st_store := st_store st; st_ptrs := st_ptrs st |}.
 Definition set_fac (i : inst) (e : regentry) : inst :=
   {| i_tname := i_tname i; i_fac := e; i_fields := i_fields i |}.
 Definition set_fields (i : inst) (l : list (key * value)) : inst :=
@@ -324,7 +329,9 @@ Inductive op :=
 | Nested (id f g : nat) (v : value)                           (* {v<id>.f.g = v} *)
 | Delete (id : nat) (k : key)                                 (* (hdel v<id> k) *)
 | DerefSet (id : nat) (v : value)                             (* (derefSet (& v<id>) v) *)
-| Decode (ko : bool) (id s : nat) (args : list (nat * value)). (* (def v<id> (unjson ..)) with/without zKeyOrder *)
+| Decode (ko : bool) (id s : nat) (args : list (nat * value))  (* (def v<id> (unjson ..)) with/without zKeyOrder *)
+| TakePtr (pid id : nat)                                      (* (def p<pid> (& v<id>)) *)
+| DerefSetP (pid : nat) (v : value).                          (* (derefSet p<pid> v): pointer made earlier *)
 
 (* every Go panic site of these routes is gone (d20da0f), so all routes report alike *)
 Definition of_verdict (vd : verdict) : outcome :=
@@ -332,8 +339,8 @@ Definition of_verdict (vd : verdict) : outcome :=
 Definition route_key_ok (r : route) (k : key) : bool :=
   match r, k with
   | RHset, _ => true
-  | RIdx, KSym _ => false
-  | RIdx, _ => true
+  | RIdx, _ => true        (* {a[k] = v}, (hset a (quote [k]) v): HashSet unwraps the one-element array key
+                              BEFORE the check, so a symbol inside is checked like a plain symbol key *)
   | _, KSym _ => true
   | _, _ => false
   end.
@@ -346,6 +353,24 @@ Fixpoint sort_insert (a : nat * value) (l : list (nat * value)) : list (nat * va
   | b :: r => if Nat.leb (fst a) (fst b) then a :: l else b :: sort_insert a r
   end.
 Definition sort_args (l : list (nat * value)) : list (nat * value) := fold_right sort_insert [] l.
+
+(* functions.go AddressOfFunction / NewSexpPointer: PointedToType = Type() of the target now *)
+Definition take_ptr (st : state) (pid id : nat) : outcome * state :=
+  if negb (value_ok st (VPtr id)) then (ERR, st)
+  else
+    match alookup id (st_store st) with
+    | Some i =>
+      match alookup (i_tname i) (st_reg st) with
+      | Some e => (OK, set_ptrs st (aset pid (id, (i_tname i, re_gen e)) (st_ptrs st)))
+      | None => (ERR, st)
+      end
+    | None => (ERR, st)
+    end.
+Definition ptr_matches (st : state) (s : nat) (g : gen) (ij : inst) : bool :=
+  match alookup (i_tname ij) (st_reg st) with
+  | Some e => Nat.eqb s (i_tname ij) && gen_eqb g (re_gen e)
+  | None => false
+  end.
 
 Definition step_op (st : state) (o : op) : outcome * state :=
   match o with
@@ -414,6 +439,28 @@ Definition step_op (st : state) (o : op) : outcome * state :=
           end
         | _ => (ERR, st)
         end
+    end
+  | TakePtr pid id => take_ptr st pid id
+  | DerefSetP pid v =>
+    match alookup pid (st_ptrs st) with
+    | None => (ERR, st)
+    | Some (id, (s, g)) =>
+      match alookup id (st_store st) with
+      | None => (ERR, st)
+      | Some i =>
+        if negb (value_ok st v) then (ERR, st)
+        else
+          match v with
+          | VInst j =>
+            match alookup j (st_store st) with
+            | Some ij =>
+              (* tt == pt: the type captured in the pointer is the SAME object as the payload's current type *)
+              if ptr_matches st s g ij then (OK, put st id ij) else (ERR, st)
+            | None => (ERR, st)
+            end
+          | _ => (ERR, st)
+          end
+      end
     end
   | Decode ko id s args =>
     if negb (forallb (fun kv => value_ok st (snd kv)) args) then (ERR, st)
@@ -584,6 +631,30 @@ Definition spec_step_op (st : state) (o : op) : sverdict * state :=
         | _ => (SRej RsType, st)
         end
     end
+  | TakePtr pid id => match take_ptr st pid id with (OK, st') => (SOk, st') | (_, st') => (SRej RsNoVar, st') end
+  | DerefSetP pid v =>
+    match alookup pid (st_ptrs st) with
+    | None => (SRej RsNoVar, st)
+    | Some (id, _) =>
+      match alookup id (st_store st) with
+      | None => (SRej RsNoVar, st)
+      | Some i =>
+        if negb (value_ok st v) then (SRej RsNoVar, st)
+        else
+          match v with
+          | VInst j =>
+            match alookup j (st_store st) with
+            | Some ij =>
+              if Nat.eqb (i_tname i) (i_tname ij) then
+                if gen_eqb (re_gen (i_fac i)) (re_gen (i_fac ij)) then (SOk, put st id ij)
+                else (SRej RsStale, st)
+              else (SRej RsType, st)
+            | None => (SRej RsNoVar, st)
+            end
+          | _ => (SRej RsType, st)
+          end
+      end
+    end
   | Decode ko id s args =>
     if negb (forallb (fun kv => value_ok st (snd kv)) args) then (SRej RsNoVar, st)
     else
@@ -659,6 +730,16 @@ Definition clean (st : state) (o : op) : bool :=
     | _ => true
     end
   | Decode ko id s args => fresh_id st id && forallb (fun kv => value_clean st (snd kv)) args
+  | TakePtr _ _ => true
+  | DerefSetP pid v =>
+    match alookup pid (st_ptrs st), v with
+    | Some (id, _), VInst j =>
+      match alookup id (st_store st), alookup j (st_store st) with
+      | Some i, Some ij => Nat.eqb (i_tname i) (i_tname ij) && gen_eqb (re_gen (i_fac i)) (re_gen (i_fac ij))
+      | _, _ => true
+      end
+    | _, _ => true
+    end
   end.
 
 Fixpoint clean_run (st : state) (h : list op) : bool :=
